@@ -44,6 +44,11 @@ impl Scheduler {
         if let Some(signal) = self.queue.next().await {
             debug!("next: {:?}", signal);
             match signal {
+                Signal::Task(task) if task.state().is_completed() => {
+                    // the task ended while it was waiting in the queue (e.g. its process was
+                    // aborted): there is nothing left to execute and its final state stays
+                    debug!("skip ended task: {:?}", task);
+                }
                 Signal::Task(task) => {
                     let ctx = &task.create_context();
                     task.exec(ctx).unwrap_or_else(|err| {
